@@ -58,40 +58,45 @@ structure A where
   chk : Bool := false  -- UpdateDesc: closed check passed while holding the watcher mutex
   cl : Bool := false   -- Close: flipped the closed flag
   nc : Bool := false   -- name check passed
-  rm : Bool := false   -- Close: removed the target from the mutable state
-  rs : Bool := false   -- Close: removed the target from the published state
+  rm : Bool := false   -- Close: removed the target from the mutable pattern table
+  rs : Bool := false   -- Close: removed the target from the published pattern snapshot
+  rr : Bool := false   -- Close: removed the target's keys from the service map
+  mid : Bool := false  -- service update: between the add phase and the delete phase
 deriving DecidableEq, Repr, Inhabited
 
+/-- what a Close must have done before it may release the watcher mutex / return -/
+def A.cleaned (svc : Bool) (a : A) : Bool := !a.cl || (if svc then a.rr else a.rm && a.rs)
+
 /-- Effect of one statement on the control flags; `none` = the lock discipline the theorems rely on
-    is broken at this statement. -/
-def A.step (a : A) : Instr → Option A
+    is broken at this statement. `svc` = the programs are those of the service router. -/
+def A.step (svc : Bool) (a : A) : Instr → Option A
   | .lockW => if a.hw || a.ht then none else some { a with hw := true }
-  | .unlockW => if a.hw && !a.ht && (!a.cl || (a.rm && a.rs)) then some { a with hw := false, chk := false } else none
-  | .loadClosed => if a.hw then some { a with chk := true } else none
-  | .casClosed => if a.hw then some { a with cl := true } else none
-  | .nameCheck => some { a with nc := true }
+  | .unlockW => if a.hw && !a.ht && a.cleaned svc then some { a with hw := false, chk := false } else none
+  | .loadClosed => if a.hw && !a.mid then some { a with chk := true } else none
+  | .casClosed => if a.hw && !a.mid then some { a with cl := true, chk := false, rm := false, rs := false, rr := false } else none
+  | .nameCheck => if !a.mid then some { a with nc := true } else none
   | .hook _ => some a
   | .lockT => if a.ht then none else some { a with ht := true }
-  | .unlockT => if a.ht then some { a with ht := false } else none
-  | .pAdd => if a.hw && a.ht && a.chk && a.nc then some a else none
+  | .unlockT => if a.ht && !a.mid then some { a with ht := false } else none
+  | .pAdd => if a.hw && a.ht && a.chk && a.nc && !svc then some a else none
   | .pRemove => if a.ht then some { a with rm := true } else none
   | .pStore => if a.ht then some { a with rs := a.rm } else none
-  | .sAdd => if a.hw && a.ht && a.chk && a.nc then some a else none
-  | .sDel => if a.ht then some a else none
-  | .sRemove => if a.ht then some { a with rm := true, rs := true } else none
+  | .sAdd => if a.hw && a.ht && a.chk && a.nc && svc && !a.mid then some { a with mid := true } else none
+  | .sDel => if a.ht then some { a with mid := false } else none
+  | .sRemove => if a.ht && !a.mid then some { a with rr := true } else none
   | .setAdd => some a
   | .setRemove => some a
   | .pLoad => some a
   | .pIter => some a
   | .sLoad => some a
-  | .ret => if !a.hw && !a.ht && (!a.cl || (a.rm && a.rs)) then some a else none
+  | .ret => if !a.hw && !a.ht && a.cleaned svc then some a else none
 
 /-- the lock-discipline checker: the flags stay defined along the whole straight-line program -/
-def wfCode : A → List Instr → Bool
+def wfCode (svc : Bool) : A → List Instr → Bool
   | _, [] => true
-  | a, i :: r => match a.step i with
+  | a, i :: r => match a.step svc i with
     | none => false
-    | some a' => wfCode a' r
+    | some a' => wfCode svc a' r
 
 inductive Op
   | update (w : Wid) (d : Desc)
@@ -114,10 +119,13 @@ structure Progs where
   /-- ServiceRouter.updateRoutes re-stores a route whose key the same target already owns
       (false = `LoadOrStore` keeps the old value, the code as it is now) -/
   storeSame : Bool := false
+  /-- these are the programs of the service router (only its table is used) -/
+  svc : Bool := false
 deriving DecidableEq, Repr
 
 def Progs.wf (P : Progs) : Bool :=
-  wfCode {} P.update && wfCode {} P.close && wfCode {} P.watch && wfCode {} P.lookupP && wfCode {} P.lookupS
+  wfCode P.svc {} P.update && wfCode P.svc {} P.close && wfCode P.svc {} P.watch &&
+  wfCode P.svc {} P.lookupP && wfCode P.svc {} P.lookupS
 
 def Progs.of (P : Progs) : Op → List Instr
   | .update _ _ => P.update
@@ -211,7 +219,7 @@ def setThread (s : State) (t : Tid) (th : Thread) : State := { s with threads :=
 
 /-- Execute statement `i` of thread `t`; `th` is the thread record with `code` already advanced.
     `none` = the statement is not enabled (mutex held by someone else). -/
-def exec (storeSame : Bool) (s : State) (t : Tid) (th : Thread) (i : Instr) : Option State :=
+def exec (svc storeSame : Bool) (s : State) (t : Tid) (th : Thread) (i : Instr) : Option State :=
   if th.skip then
     -- after an early return / panic only the deferred unlocks have an effect
     match i with
@@ -228,50 +236,45 @@ def exec (storeSame : Bool) (s : State) (t : Tid) (th : Thread) (i : Instr) : Op
     | .ret => some (setThread s t { th with res := if th.res = .pending then .ok else th.res })
     | _ => some (setThread s t th)
   else
-  let a' := (th.a.step i).getD th.a
-  let th' := { th with a := a' }
+  let th' := { th with a := (th.a.step svc i).getD th.a }
   match i with
   | .lockW =>
     match s.watchers th.w with
     | some wt =>
-      if wt.mu.isNone then
-        some { setThread s t { th with a := { th.a with hw := true } } with watchers := upd s.watchers th.w (some { wt with mu := some t }) }
+      if wt.mu.isNone then some { setThread s t th' with watchers := upd s.watchers th.w (some { wt with mu := some t }) }
       else none
     | none => none
   | .unlockW =>
     if th.a.hw then
       match s.watchers th.w with
-      | some wt =>
-        some { setThread s t { th with a := { th.a with hw := false, chk := false } } with
-               watchers := upd s.watchers th.w (some { wt with mu := none }) }
+      | some wt => some { setThread s t th' with watchers := upd s.watchers th.w (some { wt with mu := none }) }
       | none => none
-    else some (setThread s t th)
+    else some (setThread s t th')
   | .loadClosed =>
     match s.watchers th.w with
     | some wt =>
       if wt.closed then some (setThread s t { th with skip := true })
-      else some (setThread s t { th with a := { th.a with chk := th.a.hw } })
+      else some (setThread s t th')
     | none => none
   | .casClosed =>
     match s.watchers th.w with
     | some wt =>
       if wt.closed then some (setThread s t { th with skip := true })   -- panic; deferred unlock still runs
-      else some { setThread s t { th with a := { th.a with cl := true } } with
-                  watchers := upd s.watchers th.w (some { wt with closed := true }) }
+      else some { setThread s t th' with watchers := upd s.watchers th.w (some { wt with closed := true }) }
     | none => none
   | .nameCheck =>
     match s.watchers th.w with
     | some wt =>
-      if th.desc.name = wt.name then some (setThread s t { th with a := { th.a with nc := true } })
+      if th.desc.name = wt.name then some (setThread s t th')
       else some (setThread s t { th with skip := true })
     | none => none
-  | .hook _ => some (setThread s t th)
+  | .hook _ => some (setThread s t th')
   | .lockT =>
-    if s.tmu.isNone then some { setThread s t { th with a := { th.a with ht := true } } with tmu := some t }
+    if s.tmu.isNone then some { setThread s t th' with tmu := some t }
     else none
   | .unlockT =>
-    if th.a.ht then some { setThread s t { th with a := { th.a with ht := false } } with tmu := none }
-    else some (setThread s t th)
+    if th.a.ht then some { setThread s t th' with tmu := none }
+    else some (setThread s t th')
   | .pAdd => some { setThread s t th' with mtab := tblAdd ⟨th.w, th.desc⟩ s.mtab }
   | .pRemove =>
     match s.watchers th.w with
@@ -279,12 +282,11 @@ def exec (storeSame : Bool) (s : State) (t : Tid) (th : Thread) (i : Instr) : Op
     | none => none
   | .pStore => some { setThread s t th' with static := s.mtab }
   | .sAdd =>
-    let (r, pres) := svcAdd storeSame ⟨th.w, th.desc⟩ th.desc.svcs s.routes []
-    some { setThread s t { th' with present := pres } with routes := r }
+    let rp := svcAdd storeSame ⟨th.w, th.desc⟩ th.desc.svcs s.routes []
+    some { setThread s t { th' with present := rp.2 } with routes := rp.1 }
   | .sDel =>
-    let old := s.svcRoutes th.desc.name
     some { setThread s t th' with
-           routes := svcDelete (old.filter (fun k => !th.present.contains k)) s.routes,
+           routes := svcDelete ((s.svcRoutes th.desc.name).filter (fun k => !th.present.contains k)) s.routes,
            svcRoutes := upd s.svcRoutes th.desc.name th.present }
   | .sRemove =>
     match s.watchers th.w with
@@ -294,22 +296,22 @@ def exec (storeSame : Bool) (s : State) (t : Tid) (th : Thread) (i : Instr) : Op
              svcRoutes := upd s.svcRoutes wt.name [] }
     | none => none
   | .setAdd =>
-    if s.wset.contains th.key then some (setThread s t { th with res := .watchFail })
-    else some { setThread s t { th with res := .watched s.nextW } with
+    if s.wset.contains th.key then some (setThread s t { th' with res := .watchFail })
+    else some { setThread s t { th' with res := .watched s.nextW } with
                 wset := th.key :: s.wset,
                 watchers := upd s.watchers s.nextW (some { name := th.key }),
                 nextW := s.nextW + 1 }
   | .setRemove =>
     match s.watchers th.w with
-    | some wt => some { setThread s t th with wset := s.wset.filter (fun n => n ≠ wt.name) }
+    | some wt => some { setThread s t th' with wset := s.wset.filter (fun n => n ≠ wt.name) }
     | none => none
-  | .pLoad => some (setThread s t { th with snap := s.static, crAtLoad := s.closeRet })
+  | .pLoad => some (setThread s t { th' with snap := s.static, crAtLoad := s.closeRet })
   | .pIter =>
-    some (setThread s t { th with res := match tblFind th.key th.snap with | some e => .hit e | none => .miss })
+    some (setThread s t { th' with res := match tblFind th.key th.snap with | some e => .hit e | none => .miss })
   | .sLoad =>
-    some (setThread s t { th with crAtLoad := s.closeRet, res := match s.routes th.key with | some e => .hit e | none => .miss })
+    some (setThread s t { th' with crAtLoad := s.closeRet, res := match s.routes th.key with | some e => .hit e | none => .miss })
   | .ret =>
-    let th2 := { th with res := if th.res = .pending then .ok else th.res }
+    let th2 := { th' with res := if th.res = .pending then .ok else th.res }
     if th.a.cl then some { setThread s t th2 with closeRet := th.w :: s.closeRet }
     else some (setThread s t th2)
 
@@ -335,7 +337,7 @@ def step (P : Progs) (s : State) : Label → Option State
       match th.code with
       | [] => none
       | i :: rest =>
-        exec P.storeSame s t { th with code := rest } i
+        exec P.svc P.storeSame s t { th with code := rest } i
 
 def init : State := {}
 
@@ -349,6 +351,7 @@ def patternProgs : Progs where
   lookupS := [.sLoad, .ret]
 
 def serviceProgs : Progs where
+  svc := true
   update := [.lockW, .loadClosed, .nameCheck, .hook 0, .lockT, .sAdd, .hook 2, .sDel, .unlockT, .unlockW, .ret]
   close := [.lockW, .casClosed, .hook 1, .lockT, .sRemove, .unlockT, .setRemove, .unlockW, .ret]
   watch := [.setAdd, .ret]
